@@ -41,7 +41,28 @@ def main():
   rng = random.Random('%s/%s/%s' % (prop, tier, seed))
 
   if args.replay:
-    return mod.replay(json.load(open(args.replay)))
+    rj = json.load(open(args.replay))
+    if hasattr(mod, 'replay'):
+      return mod.replay(rj)
+    # generic replay: re-run the correspondence with the recorded seed/tier and look for the
+    # same request line among the violations / divergences
+    seed = int(rj.get('seed', seed))
+    tier = rj.get('tier', tier)
+    rep = fw.Report(prop, tier, seed)
+    rng = random.Random('%s/%s/%s' % (prop, tier, seed))
+    fw.lake_build(['driver'])
+    mod.correspondence(rep, rng, tier)
+    want = rj.get('line')
+    hits = [v for v in rep.violations if want is None or v.get('line') == want]
+    divs = [d for d in rep.divergences if want is None or d.get('line') == want]
+    if hits or (rj.get('kind') == 'obligation-broken' and rep.divergences):
+      print('replay: reproduced: %s' % fw.trunc((hits or rep.divergences)[0].get('what') or
+                                                  (hits or rep.divergences)[0].get('line')))
+      print('VIOLATION property=%s replay=%s' % (prop, args.replay))
+      return 1
+    print('replay: not reproduced on the current tree (property holds on this input; '
+          '%d divergences on that line)' % len(divs))
+    return 0
 
   # 1. translator part: regenerate constants from /repo
   try:
